@@ -84,6 +84,11 @@ chk('C17', 'TLA+ model of the scoped process-wide charset with fault actions (Ch
     "Python's codecs instantiate the encoding function; faults that cannot occur for a charset degenerate to success.",
     'DESIGN.md 5/C17')
 
+chk('C03', 'TLA+ message-object model with documented ranges (MsgDomain/MsgObj): TLC takes one action of the checked API from EVERY valid boundary state of every type and emits every transition; each replayed on the real Message; simulated long histories on one object (MsgObjHist)',
+    'For all 18 types TLC starts from every valid state over the range limits (and int/float time) and applies every entry point - attribute assignment, deletion, copy with one or two overrides, constructor, from_dict, from_str, copy(type=...), sysex data += - with every probe value (both limits, one inside, one and 1000 beyond, float 0.5 and 1.0, str, None, sequences with in- and out-of-range items) and with names the type does not have (122 882 transitions), checking AllValid, TypeStable, RejectIsNoOp. Each transition is executed on the real class: accepted => attribute dictionary equals the specified post-state (values and Python types), result is a new object for copy; rejected => ValueError/TypeError/AttributeError and the original unchanged. tlc -simulate adds ~10 000 (thorough ~100 000) 12-step histories of mixed accepted/rejected assignments on one object.',
+    'bool values and generators are not probed; unknown type in the constructor is left to C14.',
+    'DESIGN.md 5/C03')
+
 
 def build(not_applicable):
     checks = []
